@@ -229,7 +229,8 @@ def check(run, project):
                         if isinstance(pv, ast.Name):
                             d = [x for x in walk_no_nested(fn) if isinstance(x, ast.Assign) and isinstance(x.targets[0], ast.Name)
                                  and x.targets[0].id == pv.id]
-                            path_ok = len(d) == 1 and "PathNode('commandCode')" in norm(d[0].value) and "root_path" in norm(d[0].value)
+                            pv = d[0].value if len(d) == 1 else None
+                        path_ok = pv is not None and "PathNode('commandCode')" in norm(pv) and "root_path" in norm(pv)
             extra = [norm(c) for t, in_body in tests if in_body for c in conjuncts(t)
                      if not (isinstance(c, ast.Compare) and norm(c.left) == f"{roles.event_var}.path")
                      and norm(c) != f"isinstance({roles.event_var}, MarshalEvent)"]
